@@ -967,13 +967,35 @@ pub fn child_main(args: &Args) -> ! {
                     Dump(pristine_dump.0.iter().filter(|(p, _)| !p.starts_with("after_rewrite/")).cloned().collect())
                 };
                 // a whole pack overwritten by a sibling pack (sector copies are exactly 512 bytes long)
-                let pack_copy = matches!(fault, Fault::CopyRange { len, .. } if *len != 512);
+                // ... or a sector that holds one complete small pack (header, body and tail all
+                // within the copied range): wherever it lands there is a whole valid pack, which no
+                // check can tell from one that was written there
+                let pack_copy = match fault {
+                    Fault::CopyRange { len, .. } if *len != 512 => true,
+                    Fault::CopyRange { file, src, len, .. } => {
+                        let b = &pristine_bytes[*file];
+                        let (a, e) = (*src as usize, (*src + *len) as usize);
+                        a + 128 <= b.len()
+                            && &b[a..a + 3] == b"jbk"
+                            && b[a + 3] != b'C'
+                            && {
+                                let size = u64::from_le_bytes(b[a + 32..a + 40].try_into().unwrap()) as usize;
+                                size >= 128 && a + size <= e.min(b.len()) && b[a..a + 64].iter().eq(b[a + size - 64..a + size].iter().rev())
+                            }
+                    }
+                    _ => false,
+                };
                 let removed = fault.encode().contains("remove:") || pack_copy;
                 let mut diffs = dump::structural_diff_opts(&reference, &d, removed);
                 if pack_copy {
                     // the harness's own direct look at the overwritten span finds the sibling pack,
                     // a valid pack in its own right: only what the container says is judged
                     diffs.retain(|x| !x.starts_with("direct["));
+                    if matches!(fault, Fault::CopyRange { dst: 0, .. }) {
+                        // the copy landed at the very start: the file now begins with that whole
+                        // valid pack, and listing it as the file of that pack is a true answer
+                        diffs.retain(|x| !x.starts_with("file/"));
+                    }
                 }
                 let nerr = d.0.iter().filter(|(_, l)| l.is_err()).count();
                 let changed = d != reference;
